@@ -3,6 +3,7 @@ package props
 import (
 	"fmt"
 	"strings"
+	"sync/atomic"
 	"testing"
 	"time"
 
@@ -205,6 +206,7 @@ func TestC11(t *testing.T) {
 		// at the reply of its read of the operation log (what it is going to store is already decided)
 		lateReply := rapid.Bool().Draw(rt, "hold_at_reply_of_log_read")
 		c.j.Header = map[string]interface{}{"kinds": kinds, "id_seed": idseed, "hold_at_reply_of_log_read": lateReply, "deployment": dep}
+		var patching int32 // a REST patch request is in flight: its own reads of the snapshots are never held
 		gateOn := func() {
 			if lateReply {
 				// only reads issued by background work: a client request in flight is never held
@@ -213,7 +215,8 @@ func TestC11(t *testing.T) {
 				})
 			} else {
 				w.env.Mongo.EnableGate(func(cmd *fakemongo.Cmd) bool {
-					return cmd.Verb == "find" && strings.HasSuffix(cmd.NS, ".-_-Snapshots")
+					// (the REST patch endpoint reads the snapshots too, inside its request: never held)
+					return cmd.Verb == "find" && strings.HasSuffix(cmd.NS, ".-_-Snapshots") && atomic.LoadInt32(&patching) == 0
 				})
 			}
 			w.waitBG = false
@@ -225,6 +228,7 @@ func TestC11(t *testing.T) {
 		}
 		var canon strings.Builder
 		lateRelease, outOfOrder := false, false
+		restPatches := 0
 		pushesSinceHeld := map[int]int{} // gate seq -> pushes committed after it was held
 		step := func(a l1Action) {
 			c.j.add(a)
@@ -280,6 +284,31 @@ func TestC11(t *testing.T) {
 				gateOn()
 				continue
 			}
+			if dk := c11DocKey(w); dk != nil && rapid.IntRange(0, 9).Draw(rt, "rest_patch") == 0 {
+				// a push through the REST patch endpoint: it rebuilds the document from the latest snapshot and the
+				// later operations, and its own push triggers a snapshot update like any other
+				patchesHappened = true
+				restPatches++
+				js := fmt.Sprintf(`{"patched":%d,"b0":[%d]}`, i, i)
+				c.j.add(map[string]interface{}{"k": "rest-patch", "key": dk.Name, "json": js})
+				canon.WriteString("patch(" + dk.Name + ");")
+				atomic.StoreInt32(&patching, 1)
+				_, err, to := w.env.PatchDocument(&model.PatchMessage{Collection: w.col, Key: dk.Name, Json: js}, l1Deadline)
+				atomic.StoreInt32(&patching, 0)
+				if err != nil || to {
+					c.failf("REST patch of %s: err=%v timeout=%v", dk.Name, err, to)
+				}
+				w.reqs++
+				for s := range pushesSinceHeld {
+					pushesSinceHeld[s]++
+				}
+				for _, p := range w.env.Mongo.Pending() {
+					if _, ok := pushesSinceHeld[p.Seq]; !ok {
+						pushesSinceHeld[p.Seq] = 0
+					}
+				}
+				continue
+			}
 			if rapid.IntRange(0, 9).Draw(rt, "push_burst") < 4 {
 				// a push: one local operation on a datatype that may take one, then the sync of its client
 				type cand struct{ ci, ki int }
@@ -326,6 +355,9 @@ func TestC11(t *testing.T) {
 		for _, k := range kinds {
 			labels = append(labels, "kind="+string(k))
 		}
+		if restPatches > 0 {
+			labels = append(labels, "rest-patch-in-the-history")
+		}
 		if lateReply {
 			labels = append(labels, "held-at-reply-of-log-read")
 		} else {
@@ -363,3 +395,13 @@ func stackContainsN(s string, n int) bool {
 }
 
 var _ = iface.Datatype(nil)
+
+// c11DocKey returns a created Document key of the world (nil if there is none).
+func c11DocKey(w *l1World) *l1Key {
+	for _, k := range w.keys {
+		if k.Kind == sim.Document && k.created {
+			return k
+		}
+	}
+	return nil
+}
